@@ -9,14 +9,15 @@ import math
 import torch
 
 
-def grid_1d(dom, n, L=3.0):
-    """nodes x [n] and weights w [n] of the midpoint rule on the domain (float64)."""
+def grid_1d(dom, n, L=3.0, center=0.0, scale=1.0):
+    """nodes x [n] and weights w [n] of the midpoint rule on the domain (float64).
+    center / scale (real line only) place the dense part of the grid; they affect accuracy, never correctness."""
     t = (torch.arange(n, dtype=torch.float64) + 0.5) / n          # (0,1) midpoints
     kind = dom[0]
     if kind in ("R", "Rb"):
         s = 2 * t - 1                                              # (-1,1)
-        x = L * s / (1 - s * s)
-        w = L * (1 + s * s) / (1 - s * s) ** 2 * (2.0 / n)
+        x = center + scale * L * s / (1 - s * s)
+        w = scale * L * (1 + s * s) / (1 - s * s) ** 2 * (2.0 / n)
     elif kind == "pos":
         # x = exp(u), u on the real line
         s = 2 * t - 1
@@ -45,12 +46,18 @@ def grid_1d(dom, n, L=3.0):
     return x[ok], w[ok]
 
 
-def integrate_1d(logp, dom, n, chunk=200000):
+def placement(samples):
+    """robust centre / scale of 1-D samples for grid placement"""
+    qs = torch.quantile(samples.double().reshape(-1)[:100000], torch.tensor([0.25, 0.5, 0.75], dtype=torch.float64))
+    return float(qs[1]), max(float(qs[2] - qs[0]) / 1.35, 1e-6)
+
+
+def integrate_1d(logp, dom, n, chunk=200000, center=0.0, scale=1.0):
     """logp: callable x[m,1] -> log density [m].  Returns (I_n, I_2n, est, (x, cdf) on the fine grid)."""
     out = []
     fine = None
     for nn in (n, int(1.5 * n) + 1, 2 * n):
-        x, w = grid_1d(dom, nn)
+        x, w = grid_1d(dom, nn, center=center, scale=scale)
         vals = []
         for i in range(0, len(x), chunk):
             lp = logp(x[i:i + chunk, None])
@@ -58,7 +65,10 @@ def integrate_1d(logp, dom, n, chunk=200000):
         p = torch.cat(vals)
         p = torch.where(torch.isfinite(p), p, torch.zeros_like(p))
         out.append(float((p * w).sum()))
-        fine = (x, torch.cumsum(p * w, 0))
+        pw = p * w
+        # mass to the left of each node CENTRE (second-order accurate CDF), with the total appended as last entry
+        cs = torch.cumsum(pw, 0)
+        fine = (torch.cat([x, x[-1:] + (x[-1:] - x[-2:-1])]), torch.cat([cs - 0.5 * pw, cs[-1:]]))
         k = max(2, len(x) // 200)
         edge = float((p * w)[:k].sum() + (p * w)[-k:].sum())
     # `edge`: mass carried by the outermost 0.5 % of the nodes on either side.  If it is not negligible the density has
